@@ -464,6 +464,23 @@ def runTest (ms : List Matcher) (ns : NsMap) (vs : Vars) : List MState → List 
       let (sts, v) := multiStep ms ns vs sts e
       v :: runTest ms ns vs sts es
 
+/-- What a caller observes of the per-event results: with `skip` it behaves like `Path.select`
+    and the match filter — after a `True` on a START event the events up to the matching END
+    are fed with `updateonly=True` and their results dropped (`none`).  The strategies ignore
+    `updateonly`, so the results themselves are those of `runTest`. -/
+def maskSkip (skip : Bool) : Nat → List Event → List Val → List (Option Val)
+  | _, [], _ => []
+  | _, _, [] => []
+  | depth, e :: es, v :: vs =>
+      if depth > 0 then
+        none :: maskSkip skip (if e.isStart then depth + 1 else if e.isEnd then depth - 1 else depth) es vs
+      else
+        some v :: maskSkip skip (if skip && v == .bool true && e.isStart then 1 else 0) es vs
+
+def traceCaller (ms : List Matcher) (ns : NsMap) (vs : Vars) (skip : Bool) (sts : List MState)
+    (events : List Event) : List (Option Val) :=
+  maskSkip skip 0 events (runTest ms ns vs sts events)
+
 /-- `Path.select`: `depth > 0` while the events of a matched element are passed through
     (the matcher is still fed, update-only) -/
 def selectGo (ms : List Matcher) (ns : NsMap) (vs : Vars) : List MState → Nat → List Event → List Item
